@@ -43,6 +43,16 @@ def gen(rng, i, tier):
         return {"op": "approx", "fn": fn, "form": form, "terms": G.jraw(t), "num": rng.choice("qqf") if G.dyadic(t) else "q"}
     if rng.random() < 0.3:
         return gen_temp_bool(rng)
+    if rng.random() < 0.05:
+        # more than 32 variables, labelled 1..n or with gaps (never 0..n-1): a dict or a labelled object
+        n = rng.randint(33, 40)
+        labs = rng.sample(range(1, 60), n)
+        t = [((l,), G.coef(rng)) for l in labs] + [(tuple(rng.sample(labs, 2)), G.coef(rng)) for _ in range(rng.randint(0, 6))]
+        t = list({tuple(sorted(k)): (tuple(sorted(k)), v) for k, v in t}.values())
+        s = rng.choice([F(1, 2), F(9, 10)])
+        e = rng.choice([F(1, 2), F(1, 100)])
+        return {"op": "temp", "form": rng.choice(["dict", "QUSO", "PUSO"]), "terms": G.jraw(t), "upd": [],
+                "s": [s.numerator, s.denominator], "e": [e.numerator, e.denominator]}
     form = rng.choice(["dict", "dict"] + list(KINDS_S.keys()))
     quad = form.startswith("Q")
     uni = 'int' if form.endswith("Matrix") else rng.choice(['int', 'pool'])
